@@ -326,7 +326,18 @@ pub(crate) async fn run_command_loop(
     }
   }
 
-  // 2. Drain any remaining commands that arrived after shutdown started.
+  // 2. Nobody will read the mailbox again. A command still queued keeps its reply channel alive for as
+  //    long as any sender exists (the queue is only freed with the last socket handle), and its caller
+  //    would wait for ever: callers that enqueue from now on are told so (see delegate_to_core!), and
+  //    what is queued is dropped, which fails the calls waiting for it.
+  core_arc
+    .mailbox_closed
+    .store(true, std::sync::atomic::Ordering::SeqCst);
+  while let Ok(cmd) = command_receiver.try_recv() {
+    tracing::debug!(handle = core_handle, cmd = %cmd.variant_name(), "Dropping command that arrived after the command loop ended.");
+    drop(cmd);
+  }
+  // (old) Drain any remaining commands that arrived after shutdown started.
   //    This prevents panics from senders whose receivers have been dropped.
   // while let Some(cmd) = command_receiver.try_recv().ok() {
   //     // Log and drop the command, replying with an error if possible.
